@@ -74,6 +74,18 @@ def gen_cases(g, rng, tier):
             s = gen.string(n)
             yield [], "5/-/-/R1,S%s" % (s.hex() or "-"), "string"
             yield [], "7/-/%x/S%s" % (gen.fresh(), s.hex() or "-"), "string"
+    # OpSwitch whose 64 / 32 / 16-bit selector is defined INSIDE a function body (parameter, arithmetic result)
+    for w in (64, 64, 32, 16):
+        for definer in ("37/7/9/-", "80/7/9/R1,R1"):
+            lit = (lambda: "Q%x" % rng.randrange(1 << 64)) if w == 64 else (lambda: "L%x" % rng.randrange(1 << 32))
+            decls = ["15/-/7/L%x,L%x" % (w, rng.randrange(2)), "36/1/2/E%d.0,R3" % g.kidx["FunctionControl"]] + \
+                    (["f8/-/4/-"] if definer.startswith("80") else []) + [definer]
+            yield decls, "fb/-/-/R9,Rd,%s,Rd,%s,Re" % (lit(), lit()), "ctx"
+    # the largest encodable instructions: exactly 65535 and 65534 words
+    for total in (65535, 65534):
+        yield [], "1e/-/5/" + ",".join("R%x" % (k % 4000 + 1) for k in range(total - 2)), "maxwords"
+        yield [], "50/7/9/" + ",".join("R%x" % (k % 4000 + 1) for k in range(total - 3)), "maxwords"
+        yield [], "7/-/3/S" + ("61" * ((total - 2) * 4 - 1)), "maxwords"
     # OpSpecConstantOp over every admissible nested opcode
     sco = [x for x in g.core if x["name"] == "SpecConstantOp"][0]
     banned = ("LiteralContextDependentNumber", "PairLiteralIntegerIdRef", "LiteralSpecConstantOpInteger")
